@@ -173,15 +173,15 @@ RefResolve(S, title0, ns) ==
 (* 1843-1871) with their namespace / redirect / model filters           *)
 (* ------------------------------------------------------------------ *)
 \* nsFilter: set of namespace ids, or {} meaning "no filter" together with hasNs = FALSE
-Selected(S, hasNs, nsSet, inclRedirects, hasModel, model) ==
+SelectedRows(S, hasNs, nsSet, inclRedirects, hasModel, model) ==
   {r \in S : /\ (hasNs => r.ns \in nsSet)
              /\ (~inclRedirects => r.redirect = NoRedirect)
              /\ (hasModel => r.model = model)}
 CountPages(S, hasNs, nsSet, inclRedirects, hasModel, model) ==
-  Cardinality(Selected(S, hasNs, nsSet, inclRedirects, hasModel, model))
+  Cardinality(SelectedRows(S, hasNs, nsSet, inclRedirects, hasModel, model))
 \* titles are unique per (title, ns): the listing is a set of rows
 AllPages(S, hasNs, nsSet, inclRedirects, hasModel, model) ==
-  {Found(r) : r \in Selected(S, hasNs, nsSet, inclRedirects, hasModel, model)}
+  {Found(r) : r \in SelectedRows(S, hasNs, nsSet, inclRedirects, hasModel, model)}
 
 (* ------------------------------------------------------------------ *)
 (* properties checked on the model                                     *)
